@@ -175,12 +175,13 @@ def reluUnitIntegral (be : Backend α) (p : PdfV R Dx α) (Wi : Vec (Dx + 1) α)
 def reluIntegrateNoiseDiagonal : NoiseDiagFn α := fun be c p =>
   truncNoiseFlat (tab fun k => reluUnitIntegral be p (c.W k))
 
-/-- `_get_omega_dagger` (override, static): `tp_h.integrate('x')[:,0] / tp_h.integral()`, the mean of `h` given
+/-- `_get_omega_dagger` (override, static): `tp_h.integrate('x')[:,0] / tp_h.integral()` (guarded), the mean of `h` given
 `h ≥ 0` (the tangent point that maximises the bound of `k_func`) -/
 def reluGetOmegaDagger : OmegaDaggerFn α := fun be p Wi =>
   let E := reluUnitIntegral be p Wi
   let Z := heavisideUnitIntegral be p Wi
-  tab fun r => E r / Z r
+  -- `jnp.where(Zh > 0, E / where(Zh > 0, Zh, 1), 0)`: zero where `P(h ≥ 0)` underflows
+  tab fun r => if Transc.lt 0 (Z r) then E r / Z r else 0
 
 /-- `k_func`: `Zh c0 + c1 (Eh − Zh ω)` with `c0 = log(1 + ω)`, `c1 = 1/(1 + ω)`
 (tangent upper bound of `log(1 + h)` at `ω`, integrated over `h ≥ 0`) -/
